@@ -48,7 +48,7 @@ Proof. exact leak_start_fires. Qed.
    when the run reaches them -- for every hydraulic / rule grid and also when both instants fall inside one hydraulic step *)
 Theorem C08_leak_window_exact : forall start stop hs rs sc D l st0 p f tr sf,
   (0 < rs)%Z -> (0 < hs)%Z -> (0 < start < stop)%Z -> (l < length st0)%nat -> nth l st0 true = false ->
-  steps f (Window.g2 start stop hs rs sc D l st0 p) D (init_state (Window.g2 start stop hs rs sc D l st0 p)) = Some (tr, sf) ->
+  steps f (Window.gw start stop hs rs sc D l st0 p) D (init_state (Window.gw start stop hs rs sc D l st0 p)) = Some (tr, sf) ->
   (forall e, In e tr -> nth l (snd e) false = Window.active start stop (fst e)) /\
   ((start <= Window.s_prev sf)%Z -> In start (map fst tr)) /\ ((stop <= Window.s_prev sf)%Z -> In stop (map fst tr)).
 Proof.
@@ -56,8 +56,15 @@ Proof.
   destruct (window_exact start stop hs rs sc D l st0 p H1 H2 H3 H4 f tr sf H5 H6) as (Ha & Hb & Hc).
   split; [intros e He; exact (proj1 (Ha e He))|split; assumption].
 Qed.
+Theorem C08_leak_window_total : forall start stop hs rs sc D l st0 p,
+  (0 < rs)%Z -> (0 < hs)%Z -> (0 < start < stop)%Z -> (l < length st0)%nat -> (0 < D)%Z -> (D mod hs = 0)%Z -> nth l st0 true = false ->
+  exists f tr sf, steps f (Window.gw start stop hs rs sc D l st0 p) D (init_state (Window.gw start stop hs rs sc D l st0 p)) = Some (tr, sf) /\
+    (forall e, In e tr -> nth l (snd e) false = Window.active start stop (fst e)) /\
+    ((start <= D)%Z -> In start (map fst tr)) /\ ((stop <= D)%Z -> In stop (map fst tr)) /\ In D (map fst tr).
+Proof. intros start stop hs rs sc D l st0 p H1 H2 H3 H4 H5 H6 H7. exact (window_total start stop hs rs sc D l st0 p H1 H2 H3 H4 H5 H6 H7). Qed.
 Print Assumptions C08_leak_law.
 Print Assumptions C08_leak_window_exact.
+Print Assumptions C08_leak_window_total.
 Print Assumptions C08_leak_C0_C1.
 Print Assumptions C08_sqrt_law_derivative.
 Print Assumptions C08_leak_monotone.
